@@ -137,8 +137,51 @@ def run(ck):
 
     enf_module_sweep(ck, crate("rs", CB), re.compile(r"concordium_base::bulletproofs::"), 1, "bulletproofs")
 
-    # effect freedom of verifiers
+    # every component of a proof is consumed whole: verifiers neither truncate a vector that is part of the proof nor
+    # accept a longer one (a surplus element that is ignored is a component that can be altered freely)
     c = crate("rs", CB)
+    TRUNC = re.compile(r"ops::Index::index$|ops::IndexMut::index_mut$|slice::<impl \[T\]>::(get|split_at|split_first|split_last|first|last|chunks|windows|iter)$|"
+                       r"iter::Iterator::(take|skip|step_by|take_while|skip_while)$|vec::Vec::<.*>::(truncate|drain|split_off)$")
+    nv = ncmp = 0
+    for pth in sorted(c.paths()):
+        if not re.search(r"concordium_base::bulletproofs::(range_proof|inner_product_proof|set_membership_proof|set_non_membership_proof)::verify[a-z_]*$", pth):
+            continue
+        for b in c.get_all(pth):
+            g = Fn(b)
+            pargs = [i + 1 for i, ty in enumerate(g.b["inputs"]) if re.search(r"Proof<", ty)]
+            if not pargs:
+                continue
+            nv += 1
+            for (bi, t) in g.calls(TRUNC):
+                ff = t["f"]
+                if ff["name"] in ("index", "index_mut"):
+                    it = " ".join(ff.get("gargs") or []) + " " + (ff.get("res") or "")
+                    if "Range" not in it:
+                        continue        # single element access
+                elif ff["name"] in ("iter",):
+                    continue
+                o = g.origins(t["args"][0], deep=True)
+                if any(("arg", i) in o for i in pargs) and any(a[0] == "field" for a in o) and not any(a[0] == "call" and a[1].endswith("verify_scalars") for a in o):
+                    ck.ob("COV", pth, "proof-component-truncated@%s" % ff["name"], False,
+                          "a vector that is part of the proof is cut with %s before use: the remaining elements are not verified and can be altered or appended freely" % ff["name"], g.loc(bi))
+            for cx in rules.comparisons(g):
+                oa = g.origins(cx["a"], deep=True)
+                ob = g.origins(cx["b"], deep=True)
+                for (x, y) in ((oa, ob), (ob, oa)):
+                    if sum(1 for a in x if a[0] == "call" and a[1].endswith("::len")) == 1 and any(("arg", i) in x for i in pargs) and not any(a[0] == "bin" for a in x):
+                        rel, d = rules.cmp_rejects(g, cx)
+                        if rel is None:
+                            continue
+                        ncmp += 1
+                        ck.ob("CMP", pth, "proof-length-exact@bb%d" % cx["bb"], rel == "Ne",
+                              "the length of a proof vector is compared for equality (rejects when Ne)" if rel == "Ne" else
+                              "the length of a proof vector is only bounded (rejects when %s): a proof with surplus elements is not rejected here" % rel, g.loc(cx["bb"]))
+    ck.floor("COV", "bulletproof verifier functions taking a proof", nv, 5)
+    ck.ob("COV", "bulletproofs verifiers", "no-proof-truncation", True, "%d verifier functions scanned for truncating accesses to proof vectors; %d rejecting proof-length comparisons" % (nv, ncmp), "", nontrivial=False)
+    nz = zip_length_sweep(ck, c, re.compile(r"concordium_base::bulletproofs::"), re.compile(r"verify[a-z_0-9]*(::\{closure#\d+\})*$"), disjoint_args=True)
+    ck.ob("CMP", "bulletproofs verifiers", "zip-sites", True, "%d zips of independently supplied sequences in verifiers" % nz, "", nontrivial=False)
+
+    # effect freedom of verifiers
     cg = CallGraph([c])
     for root in (B + "range_proof::verify_efficient", B + "range_proof::verify_less_than_or_equal", B + "range_proof::verify_in_range",
                  B + "set_membership_proof::verify", B + "set_non_membership_proof::verify", B + "inner_product_proof::verify_inner_product"):
